@@ -8,8 +8,10 @@ import (
 	"reflect"
 	"unsafe"
 
+	"github.com/bytedance/sonic/internal/envs"
 	caching "github.com/bytedance/sonic/internal/optcaching"
 	"github.com/bytedance/sonic/internal/resolver"
+	"github.com/bytedance/sonic/internal/rt"
 	v "github.com/bytedance/sonic/internal/zzverif"
 )
 
@@ -217,4 +219,66 @@ func VerifC11SliceBytesEscaped() {
 	}
 	v.Assert(err == nil, "a valid base64 string (written with an escape sequence) is rejected for a []byte destination")
 	v.Assert(string(b) == "ab?c", "wrong bytes decoded from a base64 string")
+}
+
+// VerifC11EfaceFastGate: whenever the option word lets the fast interface{} builder run
+// (canUseFastMap), a number decodes to the same dynamic type and value as on the reference
+// (fallback) path under the same options: the gate must exclude every option the fast builder
+// does not honour.
+func VerifC11EfaceFastGate() {
+	verifStubMismatch()
+	v.Stub("os.Getenv", func(key string) string { return "1" }) // SONIC_USE_FASTMAP=1 (package initialiser of envs)
+	envs.UseFastMap = true
+	if v.Symbolic() {
+		// the type descriptors are built with reflect in package initialisers the engine does not
+		// run: three distinct placeholders are all the gate needs
+		rt.AnyType, rt.MapEfaceType, rt.SliceEfaceType = new(rt.GoType), new(rt.GoType), new(rt.GoType)
+	}
+	kinds := [...]uint8{KUint, KSint, KReal}
+	k := kinds[v.Concretize(v.Int("kind", 0, len(kinds)-1))]
+	// (the engine has no symbolic integer->float conversion: payloads are picked from a family)
+	pays := [...]uint64{0, 1, 1 << 53, 1<<53 + 1, 1<<63 - 1, 1 << 63, ^uint64(0), 0x3FF0000000000000, 0xC000000000000000}
+	payload := pays[v.Concretize(v.Int("payload", 0, len(pays)-1))]
+	opts := v.Uint64("options")
+	// with UseNumber the native parser produces raw-number nodes, not the kinds above
+	v.Assume(opts&(1<<_F_use_number) == 0)
+	if k == KSint {
+		v.Assume(int64(payload) < 0) // the parser emits KSint for negative integers only
+	}
+	if k == KReal {
+		v.Assume((payload>>52)&0x7FF != 0x7FF) // finite doubles
+	}
+	nodes := []node{{typ: uint64(k), val: payload}, {typ: uint64(KNull)}}
+	p := &Parser{Json: "1", options: opts, nodes: nodes}
+	ctx := &context{Parser: p}
+	if !canUseFastMap(opts, rt.AnyType) {
+		v.Cover("slow")
+		return
+	}
+	v.Cover("fast")
+	// reference result
+	ref := Node{cptr: uintptr(unsafe.Pointer(&nodes[0]))}
+	want, err := ref.AsEfaceFallback(ctx)
+	v.Assert(err == nil, "reference path fails on a number node")
+	// fast result
+	ctx.efacePool = newEfacePool(&jsonStat{number: 1}, false)
+	ctx.Stack = newStack(1)
+	it := NewNodeIter(Node{cptr: uintptr(unsafe.Pointer(&nodes[0]))})
+	got := AsEfaceFast(&it, ctx)
+	switch w := want.(type) {
+	case float64:
+		g, ok := got.(float64)
+		v.Assert(ok, "fast interface{} builder yields another dynamic type than the reference path (float64)")
+		if ok {
+			v.Assert(math.Float64bits(g) == math.Float64bits(w), "fast interface{} builder yields another float64 than the reference path")
+		}
+	case int64:
+		g, ok := got.(int64)
+		v.Assert(ok, "the fast interface{} builder is allowed under UseInt64 although it cannot produce int64: integers come back as float64")
+		if ok {
+			v.Assert(g == w, "fast interface{} builder yields another int64 than the reference path")
+		}
+	default:
+		v.Assert(false, "reference path yields an unexpected dynamic type for a number")
+	}
 }
